@@ -163,6 +163,8 @@ def analyse(obs: Obs, prog):
     cin = sc.carry_in[1]
     tin = ("attr", P("trace"), "inner")
     pc = ("call", ("attr", ("elem", tin), "project"), (("call", G("jax.random.fold_in"), (cin[ik], cin[ic]), ()), P("selection")), ())
+    cout_p = sc.carry_out[1]
+    obs.add({"C10", "C12"}, "IDX-ALIGN", "Scan.project/carry", cout_p[ik] == cin[ik] and cout_p[ic] == ("bin", "+", cin[ic], C(1)), derived=sc.carry_out, expected="(key, idx + 1)", where=w)
     obs.add({"C10", "C12"}, "WEIGHT-PROJ", "Scan.project", r.ret == jsum(("stack", pc)) and sc.xs == tin, derived=r.ret, expected="sum over iterations of subtrace.project(key_i, selection) - the selection passes through the index level unchanged", where=w)
 
     # ---------------------------------------------------------------- edit_update / edit_regenerate
